@@ -49,9 +49,10 @@ impl SyncRunner {
     fn state(&self) -> String {
         let c = self.cache.as_ref().unwrap();
         format!(
-            "{} live={}",
+            "{} live={} lk={}",
             c.verif_snapshot(self.clock.base(), &|k: &TK| k.k, &|v: &TV| v.v),
-            self.counters.vals.load(Ordering::SeqCst)
+            self.counters.vals.load(Ordering::SeqCst),
+            self.counters.keys.load(Ordering::SeqCst)
         )
     }
 }
@@ -84,6 +85,7 @@ impl Runner for SyncRunner {
                 cache.sync();
                 "-".to_string()
             }
+            "Q" => cache.verif_frequency(&TK::new(num(1), &cn)).to_string(),
             "D" => {
                 self.clock.advance(dur_ns(toks[1].parse().expect("bad duration")));
                 "-".to_string()
